@@ -65,6 +65,8 @@ pub proof fn theorem_domains(d: &StarkDomains, t: nat, c: nat)
         pow_mod(d.trace_generator@, d.trace_domain_size@) == 1,                                 // [C12:trace-generator-order-divides-2^t]
         forall|j: nat| j < t ==> pow_mod(d.trace_generator@, pow2(j)) != 1,                     // [C12:trace-generator-order-exactly-2^t]
         d.trace_generator@ == pow_mod(d.eval_generator@, pow2(c)),                              // [C12:trace-generator-is-eval-generator-to-2^c]
+        is_order(d.eval_generator@, pow2(t + c)),                                               // [C12:eval-generator-has-multiplicative-order-exactly-2^(t+c)]
+        is_order(d.trace_generator@, pow2(t)),                                                  // [C12:trace-generator-has-multiplicative-order-exactly-2^t]
         d.eval_domain_size@ == pow2(t + c) && d.trace_domain_size@ == pow2(t),                  // [C12:sizes-are-the-powers-of-two]
 {
     lemma_gen_order(t + c);
@@ -73,6 +75,9 @@ pub proof fn theorem_domains(d: &StarkDomains, t: nat, c: nat)
     assert forall|j: nat| j < t implies pow_mod(d.trace_generator@, pow2(j)) != 1 by { lemma_gen_order_minimal(t, j); }
     lemma_gen_pow(t + c, c);
     assert((t + c - c) as nat == t);
+    // exact order: no exponent below 2^k gives 1 (numth::lemma_order_exactly_pow2)
+    lemma_order_exactly_pow2(d.eval_generator@, t + c);
+    lemma_order_exactly_pow2(d.trace_generator@, t);
 }
 } // verus!
 } // mod domains
